@@ -144,21 +144,19 @@ def setBytes (data : List Int) : Outcome Point :=
     the model represents by the all-zero (uninitialised) point.
     (A `Thunk`, like the three constants below: evaluated on first use and cached in the compiled
     driver instead of at program start; `Thunk.get (Thunk.mk f) = f ()` definitionally.) -/
-def identityT : Thunk Point := Thunk.mk fun _ =>
-  match setBytes Gen.Ed448Pt.identityBytes with
+def okOrNil : Outcome Point → Point
   | .ok p => p
   | _ => ⟨zero, zero, zero⟩
+
+def identityT : Thunk Point := Thunk.mk fun _ => okOrNil (setBytes Gen.Ed448Pt.identityBytes)
 
 /-- `var generator, _ = new(Point).SetBytes(…)` -/
-def generatorT : Thunk Point := Thunk.mk fun _ =>
-  match setBytes Gen.Ed448Pt.generatorBytes with
-  | .ok p => p
-  | _ => ⟨zero, zero, zero⟩
+def generatorT : Thunk Point := Thunk.mk fun _ => okOrNil (setBytes Gen.Ed448Pt.generatorBytes)
 
 /-- `NewIdentityPoint()` -/
-@[inline] def newIdentity (_ : Unit) : Point := set identityT.get
+def newIdentity (_ : Unit) : Point := identityT.get       -- `new(Point).Set(identity)`: a copy
 /-- `NewGeneratorPoint()` -/
-@[inline] def newGenerator (_ : Unit) : Point := set generatorT.get
+def newGenerator (_ : Unit) : Point := generatorT.get     -- `new(Point).Set(generator)`
 
 /-! ## guarded variants: the `checkInitialized` panics -/
 
